@@ -396,11 +396,19 @@ class SymInt:
     def __float__(self):
         raise EngineLimit("builtin float() of a symbolic int (module without FloatShim?)")
 
+    def _tag(self):
+        # concrete terms print as the number; symbolic ones as a tag that identifies the TERM (used by recorders to tell
+        # which object a formatted cell came from); message texts are never compared
+        t = z3.simplify(self.t)
+        if z3.is_bv_value(t):
+            return builtins.str(t.as_signed_long())
+        return f"<symint#{self.t.get_id()}>"
+
     def __format__(self, spec):
-        return "<symint>"
+        return self._tag()
 
     def __repr__(self):
-        return "<symint>"
+        return self._tag()
 
     __str__ = __repr__
 
